@@ -255,6 +255,33 @@ pub fn run(ctx: &Ctx) {
             judge(kind, value, fixed_point, idx, loc);
         },
     ));
+    // history: a conversion must not depend on the conversions before it (memoised scale factors,
+    // "last argument" caches): ALL ordered pairs over an evenly spread subset of the product space
+    {
+        let total = space.size();
+        let m: u64 = 700.min(total);
+        let stride = (total / m).max(1);
+        let sp = space.clone();
+        let decode = move |idx: u64| {
+            let c = sp.coords(idx);
+            let fixed_point = if c[2] == 0 {
+                None
+            } else {
+                let j = c[2] - 1;
+                Some(FixedPoint { quantization: qs[j % qs.len()], offset: os[j / qs.len()].clone() })
+            };
+            (ks[c[0]].clone(), vs[c[1]].clone(), fixed_point)
+        };
+        ctx.run_family(Family::new("c18.history", m * m, format!("ALL ordered pairs (a, b) over {} cases spread evenly over the product space (every {}th): a is converted, then b is judged twice on the same thread", m, stride), move |i, loc| {
+            let (ia, ib) = ((i / m) * stride, (i % m) * stride);
+            let (ka, va, fa) = decode(ia);
+            let arg = Argument { type_info: TypeInfo { kind: ka, coding: StringCoding::UTF8, has_variable_info: false, has_trace_info: false }, name: None, unit: None, fixed_point: fa, value: va };
+            let _ = catch(|| arg.to_real_value());
+            let (kb, vb, fb) = decode(ib);
+            judge(kb.clone(), vb.clone(), fb.clone(), ib, loc);
+            judge(kb, vb, fb, ib, loc);
+        }).distinct());
+    }
     // dense family: bit-level value coverage x f32 exponent sweep x offsets
     {
         use FloatWidth::*;
